@@ -1638,6 +1638,22 @@ let rec reads_actuals st formals es =
      | [] -> []
      | e :: er -> app (reads_actual st k e) (reads_actuals st fr er))
 
+(** val reads_bind_args :
+    (sym * argkind) list -> binding list -> state -> event list **)
+
+let rec reads_bind_args formals actuals callee =
+  match formals with
+  | [] -> []
+  | p :: fr ->
+    let (x, k) = p in
+    (match actuals with
+     | [] -> []
+     | a :: ar ->
+       app
+         (match k with
+          | KTensor (shape, _) -> reads_list callee shape
+          | _ -> []) (reads_bind_args fr ar (bind_var x a callee)))
+
 (** val seqZ : z -> nat -> z list **)
 
 let rec seqZ k = function
@@ -1770,7 +1786,8 @@ let rec exec_fp ord d sub0 s st =
             (tapp
               (tev
                 (app (reads_actuals st formals args)
-                  (reads_list callee preds))) t))))))
+                  (app (reads_bind_args formals acts (with_env [] st))
+                    (reads_list callee preds)))) t))))))
   | WindowS (x, rhs) ->
     bind (eval_view st rhs) (fun w -> Ok ((bind_var x (BView w) st),
       (tev (reads_view st rhs))))
